@@ -632,8 +632,12 @@ class Exec:
                 for cv, t in cases:
                     if (cv & ((1 << ty.bits) - 1)) == xs.as_long(): return ('br', t)
                 return ('br', dflt)
-            alts = [(x == cv, t) for cv, t in cases]
-            alts.append((z3.And([x != cv for cv, _ in cases]) if cases else z3.BoolVal(True), dflt))
+            # one alternative per TARGET (case values are distinct, so their order does not matter): a 128-value class is one path, not 128
+            by_t = {}
+            for cv, t in cases:
+                by_t.setdefault(t, []).append(cv)
+            alts = [(z3.Or([x == cv for cv in cvs]) if len(cvs) > 1 else x == cvs[0], t) for t, cvs in by_t.items() if t != dflt]
+            alts.append((z3.And([x != cv for cv, t in cases if t != dflt]) if any(t != dflt for _, t in cases) else z3.BoolVal(True), dflt))
             return ('fork', alts)
         if op == 'call':
             rty, callee, args = a
